@@ -15,7 +15,7 @@ Flow-insensitive inside a function, context-sensitive across the rule-local help
 """
 import ast
 
-from .model import need, ForElem, TupleElem, call_name, const_str
+from .model import need, ForElem, TupleElem, call_name, const_str, orient_text
 
 
 class Src:
@@ -93,7 +93,7 @@ class Deriv:
                     for nn in ast.walk(q2):
                         if isinstance(nn, ast.Name) and nn.id == v:
                             nn.id = 'c'
-                    out.add(ast.unparse(q2))
+                    out.add(orient_text(q2))
             return frozenset(out)
 
         for n in sel.own_nodes():
@@ -110,6 +110,7 @@ class Deriv:
             'eligible': frozenset(["c.state != 'withdrawn'"]),
             '*': frozenset(["c.state == state"]),
         }
+        expect = {k: frozenset(orient_text(x) for x in v) for k, v in expect.items()}
         for k, v in expect.items():
             need(table.get(k) == v, 'Candidates.select(%r) filters on %r, expected %r: provenance tags '
                                     'would be wrong' % (k, sorted(table.get(k) or []), sorted(v)))
